@@ -36,6 +36,10 @@ def gen_curve(rng, lo=32, hi=64, clampy=False):
         k = len(loads)
     style = rng.choice(["rising", "any", "any", "peak"])
     vals = sorted(val() for _ in range(k)) if style == "rising" else [val() for _ in range(k)]
+    if k >= 3 and rng.random() < 0.2:      # a characteristic that peaks at part load and returns to its first value at the top
+        vals = list(vals)
+        vals[-1] = vals[0]
+        vals[k // 2] = max(vals) if max(vals) > vals[0] else min(Fraction(hi, 64), vals[0] + Fraction(3, 64))
     pts = [[l, v] for l, v in zip(loads, vals)]
     if clampy and rng.random() < 0.5:
         pts[rng.randrange(k)][1] = rng.choice([Fraction(9, 8), Fraction(1, 256)])
